@@ -117,6 +117,8 @@ func main() {
 			usage()
 		}
 		os.Exit(runCheckOverlay(os.Args[2], os.Args[3]))
+	case "mutsweep":
+		os.Exit(runMutSweep(os.Args[2:]))
 	case "selftest":
 		os.Exit(runSelfTest(os.Args[2:]))
 	default:
